@@ -20,12 +20,15 @@ import (
 
 // Case is one replayable case.
 type Case struct {
-	Skel geomgen.Skel
-	Rot  int
-	Pair []int
-	Bad  int // slot receiving a non-finite value (-1 none)
-	BadV int // 0 NaN, 1 +Inf, 2 -Inf
+	Skel   geomgen.Skel
+	Rot    int
+	Pair   []int
+	Bad    int  // slot receiving a non-finite value (-1 none)
+	BadV   int  // 0 NaN, 1 +Inf, 2 -Inf
+	Closed bool // every ring / line of >= 3 vertices gets its first vertex repeated at the end
 }
+
+var otherGeom = geom.MultiLineString{{{X: 123456.5, Y: -2}, {X: 3, Y: 4}, {X: 5, Y: 6.25}}, {{X: 7, Y: 8}}}
 
 var nonfinite = []float64{math.NaN(), math.Inf(1), math.Inf(-1)}
 
@@ -45,7 +48,34 @@ func build(c Case) geom.Geom {
 		i++
 		return v
 	}
-	return geomgen.Build(c.Skel, func() geom.Point { x := val(); y := val(); return geom.Point{X: x, Y: y} })
+	g := geomgen.Build(c.Skel, func() geom.Point { x := val(); y := val(); return geom.Point{X: x, Y: y} })
+	if c.Closed {
+		cl := func(p []geom.Point) []geom.Point {
+			if len(p) >= 3 {
+				return append(p, p[0])
+			}
+			return p
+		}
+		switch t := g.(type) {
+		case geom.LineString:
+			g = geom.LineString(cl(t))
+		case geom.MultiLineString:
+			for i := range t {
+				t[i] = cl(t[i])
+			}
+		case geom.Polygon:
+			for i := range t {
+				t[i] = cl(t[i])
+			}
+		case geom.MultiPolygon:
+			for i := range t {
+				for j := range t[i] {
+					t[i][j] = cl(t[i][j])
+				}
+			}
+		}
+	}
+	return g
 }
 
 func try(f func()) (p string) {
@@ -180,6 +210,17 @@ func check(c Case) (string, string) {
 	if d := geomgen.Diff(g, got, true); d != "" {
 		return "roundtrip-differs", d + ": " + string(enc)
 	}
+	// the bytes returned earlier must not change when Encode is called again
+	// (history: Encode, Encode, then use the first result)
+	saved := append([]byte{}, enc...)
+	if _, e2 := geojson.Encode(otherGeom); e2 == nil {
+		if !bytes.Equal(saved, enc) {
+			return "returned-bytes-changed-by-later-Encode", fmt.Sprintf("was %s, now %s", saved, enc)
+		}
+		if g3, e3 := geojson.Decode(enc); e3 != nil || geomgen.Diff(g, g3, true) != "" {
+			return "returned-bytes-changed-by-later-Encode", fmt.Sprintf("%v", e3)
+		}
+	}
 	// ToGeoJSON / FromGeoJSON object path
 	var gj *geojson.Geometry
 	if p := try(func() { gj, err = geojson.ToGeoJSON(g) }); p != "" || err != nil {
@@ -211,8 +252,8 @@ func main() {
 		return
 	}
 	r := report.New("C06", tier, "model_checking")
-	r.Rule = "E1: every structure tree of the six GeoJSON types with 1..3 members (first member non-empty, later members possibly empty), lengths 0..2(3) x every rotation of 19 finite float64 patterns (full product for points) : Encode text re-read with json.Number into a generic tree must be {type, coordinates} nested exactly as the type requires with [x,y] literals parsing bit-exactly; Decode(Encode(g)) bit-identical; each single coordinate slot replaced by NaN/+Inf/-Inf must make Encode fail; unsupported types rejected. Non-trivial = geometries with >= 2 members."
-	cfg := geomgen.Config{MaxMembers: 3, Lens: []int{0, 1, 2}, FlatMax: 3, PolyRings: 2}
+	r.Rule = "E1: every structure tree of the six GeoJSON types with 1..3 members (first member non-empty, later members possibly empty), lengths 0..2(3) x every rotation of 19 finite float64 patterns (full product for points) : Encode text re-read with json.Number into a generic tree must be {type, coordinates} nested exactly as the type requires with [x,y] literals parsing bit-exactly; Decode(Encode(g)) bit-identical, also with every ring / line of >= 3 vertices closed by repeating its first vertex; the bytes returned by Encode unchanged by a later Encode call; each single coordinate slot replaced by NaN/+Inf/-Inf must make Encode fail; unsupported types rejected. Non-trivial = geometries with >= 2 members."
+	cfg := geomgen.Config{MaxMembers: 3, Lens: []int{0, 1, 2, 3}, FlatMax: 3, PolyRings: 2}
 	if tier == "thorough" {
 		cfg = geomgen.Config{MaxMembers: 3, Lens: []int{0, 1, 2, 3}, FlatMax: 4, PolyRings: 3}
 	}
@@ -245,6 +286,7 @@ func main() {
 		}
 		for rot := 0; rot < np; rot++ {
 			run(Case{Skel: s, Rot: rot, Bad: -1})
+			run(Case{Skel: s, Rot: rot, Bad: -1, Closed: true})
 		}
 		for slot := 0; slot < 2*s.NPoints(); slot++ {
 			for v := range nonfinite {
